@@ -695,6 +695,31 @@ def r07_12(ctx, rep):
         raise MechanismMissing(R, "no `<X>.classes[...] = build_instance_tree(...)` found")
 
 
+@SPEC.rule(
+    "R07.13",
+    "every component gets the class its own type names: build_instance_tree keeps no table of looked-up classes — a store of a find_class() "
+    "result under a key (`looked_up[class_name.name] = ...find_class(sym.type ...)`) answers the next component whose qualified type merely "
+    "starts with the same identifier (`Lib.Tank t1; Lib.Valve v1;`) with the first one's class",
+)
+def r07_13(ctx, rep):
+    R = "R07.13"
+    probe = ast.parse("def f(c, sym):\n    memo = {}\n    memo[sym.type.name] = c.find_class(sym.type, copy=False)\n").body[0]
+
+    def memoised(fn):
+        return ["line %d: %s" % (st.lineno, norm(st)[:70]) for st in ast.walk(fn) if isinstance(st, ast.Assign) and isinstance(st.targets[0], ast.Subscript)
+                and not norm(st.targets[0].value).endswith((".classes", ".symbols")) and any(
+                    isinstance(c, ast.Call) and isinstance(c.func, ast.Attribute) and c.func.attr in ("find_class", "_find_class", "find_symbol") for c in ast.walk(st.value))]
+
+    if not memoised(probe):
+        raise AnalysisError(R, "self-test of the lookup-memo detector failed")
+    mod = ctx.module(TREE, R)
+    fns = [f for f in mod.body if isinstance(f, ast.FunctionDef)]
+    hits = [h for f in fns for h in memoised(f)]
+    if len(fns) < 10:
+        raise MechanismMissing(R, "fewer than 10 functions scanned in tree.py")
+    rep.ob(R, TREE, "no class look-up is remembered under a key", not hits, "; ".join(hits[:3]))
+
+
 # -- seeded variants ---------------------------------------------------------
 from ._mut import delete_stmt_where, replace_in_func  # noqa: E402
 
